@@ -120,11 +120,13 @@ PROFILES = {
     "sql": dict(
         property="C19",
         oracles=["O19"],
-        weights=_w(mutate=7, mutate_w=6, filter=5, arrange=4, slice_head=4, group_by=4, ungroup=1, summarize=5, select=3, rename=3, join=5, union=2, alias=4, ref=0, collect=0, observe=3, uuid_regime=2),
-        mutate_kinds=dict(ref=1, tag=4, add=1, lit=1, case=2),
+        weights=_w(mutate=7, mutate_w=6, filter=5, arrange=4, slice_head=4, group_by=4, ungroup=1, summarize=5, select=3, rename=3, join=5, union=2, alias=4, ref=6, hide_ref=3, hidden_computed_scenario=2, touch_hidden_computed=2, collect=0, observe=3, uuid_regime=2),
+        mutate_kinds=dict(ref=2, tag=4, add=2, lit=1, case=2),
+        mutate_names=[4, 5, 2, 0],
         window_kinds=WIN,
         summarize_kinds=dict(agg=5, arith_agg=1),
-        refarg_mix=dict(r=0, c=3, o=3, n=1),
+        refarg_mix=dict(r=4, c=3, o=3, n=1),
+        max_probes=6,
         p_alias_keep=0.2,
         force_replicas=["polars", "sqlite"],
         cq_replicas=["postgres", "mssql"],
